@@ -75,6 +75,24 @@ LOGGED_IN_USER: str | None = None
 
 ####################################################################
 #
+def mbox_name_is_inside_maildir(name: str) -> bool:
+    """
+    Mailbox names are used as paths relative to the user's mail directory.
+    Returns False for a name that would leave that directory: an absolute
+    path, or one that (after normalization) is, or climbs above, the mail
+    directory itself.
+
+    NOTE: The single leading `/` of our namespace prefix must already have
+          been stripped by the caller.
+    """
+    if name.startswith("/"):
+        return False
+    norm = os.path.normpath(name)
+    return not (norm in (".", "..") or norm.startswith("../"))
+
+
+####################################################################
+#
 # Provide os.utime as an asyncio function via aiosfiles `wrap` async decorator
 #
 utime = aiofiles_wrap(os.utime)
